@@ -1420,8 +1420,9 @@ func (s *State) checkASAInterfaces() error {
 	getImplicitInterfaces := func(cfg *Config) map[string][]*cmd {
 		m := make(map[string][]*cmd)
 		for _, c := range cfg.lookup["access-group"][""] {
+			// May have trailing "per-user-override" or "control-plane".
 			tokens := strings.Fields(c.parsed)
-			if len(tokens) == 5 {
+			if len(tokens) >= 5 {
 				m[tokens[4]] = append(m[tokens[4]], c)
 			}
 		}
